@@ -76,12 +76,16 @@ def selectRepoSet (shards : List RShard) : Q → List RShard × Q
 /-- positions (in `s.repos`) of the repositories `indexData.List(q)` returns: none if `q` simplifies to FALSE, every
     non-tombstoned one if it simplifies to TRUE, otherwise those whose *name* is the repository name of a live
     document matching the simplified, expanded tree -/
+def constValue : Q → Option Bool
+  | .const v => some v
+  | _ => none
+
 def shardList (ctx : List Shard) (s : Shard) (q : Q) : List Repo :=
-  match shardSimplify s q with
-  | .const false => []
-  | .const true => s.repos.filter fun r => !r.tombstone
-  | q' =>
-    let found := (s.docs.filter fun d => s.live d && eval (expand q') ctx s d).filterMap fun d =>
+  match constValue (shardSimplify s q) with
+  | some false => []
+  | some true => s.repos.filter fun r => !r.tombstone
+  | none =>
+    let found := (s.docs.filter fun d => s.live d && eval (expand (shardSimplify s q)) ctx s d).filterMap fun d =>
       (s.repoOf d).map (·.name)
     s.repos.filter fun r => !r.tombstone && found.contains r.name
 
